@@ -335,6 +335,11 @@ def run(ctx):
     ctx.rule("R10.reccount", "a diff tool that reads numrecs from the headers compares the two files' record counts")
     r10reccount.check(ctx, dprog, "R10.reccount", ("ncmpidiff.c", "cdfdiff.c"))
     r10reccount.check_dimlen(ctx, dprog, "R10.reccount", ("cdfdiff.c",))
+    from rules import r8valshape
+    ctx.rule("R8.valshape", "ncvalidator var_shape64: a variable's length is its element size times the product of its non-record "
+             "dimensions, rounded up to 4 (bounded: shapes of 1..3 dimensions, 4 element sizes)")
+    nvs = r8valshape.check(ctx, ctx.need_fn(vprog, "var_shape64"), "R8.valshape")
+    ctx.require(nvs >= 400, "R8.valshape: only %d cells evaluated" % nvs)
     from rules import r9msgbuf
     ctx.rule("R9.msgbuf", "ncvalidator, ncoffsets (and cdfdiff through the validator's decoder): every sprintf / strcpy / strcat into a "
              "character array of constant size is bounded below the size of the array; a `%s` of a name read from the file is unbounded")
